@@ -10,7 +10,7 @@ S = 'models.servlet_scn:ServletScn'
 def configs(tier):
     cs = [
         dict(stages=[1], init_fail=False, work_fail=True, pre_fail=True, callers=2),
-        dict(stages=[1, 1], init_fail=False, work_fail=True, callers=2),
+        dict(stages=[1, 1], init_fail=False, work_fail=True, callers=2, validate_all=True),
         dict(stages=[2], init_fail=False, work_fail=True, callers=2),
     ]
     if tier == 'thorough':
